@@ -431,6 +431,16 @@ def candidates(sch, draw):
             t["name"] = t["name"].swapcase() if draw(st.booleans()) else t["name"]
             s["_include"] = {"file": "inc_dup.xml", "types": [t]}
         cands.append(("duplicate-type-name", "via-include", mut))
+    # ---- schema name (package, or --schema-name when given)
+    BAD_SCHEMA_NAMES = KEYWORD_NAMES + BAD_NAMES + ["std", "posix", ""]
+    if sch.get("schema_name"):
+        def mut(s):
+            s["schema_name"] = draw(st.sampled_from([n for n in BAD_SCHEMA_NAMES if n and " " not in n]))
+        cands.append(("invalid-schema-name", "schema-name-option", mut))
+    else:
+        def mut(s):
+            s["package"] = draw(st.sampled_from(BAD_SCHEMA_NAMES + [None]))
+        cands.append(("invalid-schema-name", "package", mut))
     # ---- messages
     if len(sch["messages"]) >= 2:
         def mut(s):
@@ -460,12 +470,14 @@ def verdict(sbeppc, xml, work, tag, include=None):
     sp = os.path.join(d, "s.xml")
     with open(sp, "w") as f:
         f.write(xml)
-    for stale in ("inc_dup.xml", "inc_types.xml"):
+    for stale in ("inc_dup.xml", "inc_types.xml", "inc_layout.xml"):
         if os.path.exists(os.path.join(d, stale)):
             os.remove(os.path.join(d, stale))
-    if include:
-        with open(os.path.join(d, include[0]), "w") as f:
-            f.write(include[1])
+    if include and not isinstance(include, dict):
+        include = {include[0]: include[1]}
+    for fn, content in (include or {}).items():
+        with open(os.path.join(d, os.path.basename(fn)), "w") as f:
+            f.write(content)
     rc, out = common.run_sbeppc(sbeppc, sp, os.path.join(d, "out"), cwd=d)
     shutil.rmtree(os.path.join(d, "out"), ignore_errors=True)
     errs = [l for l in out.splitlines() if l.startswith("Error")]
@@ -520,14 +532,15 @@ def _worker(args):
             cls("checker_rejects_valid:" + ",".join(broken))
             out["catalog_bugs"] += 1
             return
-        incx = schemagen.include_file_xml(s2)
-        rc, errs, nlines = verdict(sbeppc, xml, work, "t%d" % seed_off, (s2["_include"]["file"], incx) if incx else None)
-        if incx:
+        incs = schemagen.include_files(s2)
+        rc, errs, nlines = verdict(sbeppc, xml, work, "t%d" % seed_off, incs)
+        for incx in incs.values():
             nlines = max(nlines, incx.count("\n") + 1)
+        incx = incs or None
         if not edited:
             cls("unedited")
             if rc != 0:
-                local["last"] = ("valid-schema-rejected", {"schema_xml": xml, "model": s2, "rule": None, "include": [s2["_include"]["file"], incx] if incx else None},
+                local["last"] = ("valid-schema-rejected", {"schema_xml": xml, "model": s2, "rule": None, "include": incx},
                                  "valid schema rejected: %s" % (errs[:1] or [rc]))
                 raise AssertionError()
             return
@@ -537,16 +550,16 @@ def _worker(args):
         if len(out["samples"]) < 3 and out["matrix"][key] == 1 and len(out["matrix"]) % 7 == 1:
             out["samples"].append({"rule": rule, "position": pos, "diagnostic": errs[:1], "exit": rc})
         if rc == 0:
-            local["last"] = ("invalid-schema-accepted:%s" % rule, {"schema_xml": xml, "model": s2, "rule": rule, "position": pos, "include": [s2["_include"]["file"], incx] if incx else None},
+            local["last"] = ("invalid-schema-accepted:%s" % rule, {"schema_xml": xml, "model": s2, "rule": rule, "position": pos, "include": incx},
                              "schema breaking rule `%s` at %s accepted with exit 0" % (rule, pos))
             raise AssertionError()
         if rc < 0 or rc > 1:
-            local["last"] = ("abnormal-exit:%s" % rule, {"schema_xml": xml, "model": s2, "rule": rule, "position": pos, "include": [s2["_include"]["file"], incx] if incx else None},
+            local["last"] = ("abnormal-exit:%s" % rule, {"schema_xml": xml, "model": s2, "rule": rule, "position": pos, "include": incx},
                              "sbeppc ended with status %d on a schema breaking `%s`" % (rc, rule))
             raise AssertionError()
         m = LOC_RE.match(errs[0]) if errs else None
         if not m or not (1 <= int(m.group(2)) <= nlines) or int(m.group(3)) < 1:
-            local["last"] = ("diagnostic-not-located:%s" % rule, {"schema_xml": xml, "model": s2, "rule": rule, "position": pos, "include": [s2["_include"]["file"], incx] if incx else None},
+            local["last"] = ("diagnostic-not-located:%s" % rule, {"schema_xml": xml, "model": s2, "rule": rule, "position": pos, "include": incx},
                              "rejected (rule `%s` at %s) but the first diagnostic is not a located Error line: %s" % (rule, pos, errs[:1]))
             raise AssertionError()
 
@@ -601,7 +614,7 @@ def replay(path):
     case = json.load(open(path))["case"]
     work = common.build_dir("c08-replay-%d" % os.getpid())
     try:
-        rc, errs, nlines = verdict(common.build_sbeppc("plain"), case["schema_xml"], work, "r", tuple(case["include"]) if case.get("include") else None)
+        rc, errs, nlines = verdict(common.build_sbeppc("plain"), case["schema_xml"], work, "r", (case["include"] if isinstance(case.get("include"), dict) else tuple(case["include"])) if case.get("include") else None)
         print("exit", rc, errs[:2])
         if case.get("rule") is None:
             return 0 if rc == 0 else 1
